@@ -69,6 +69,30 @@ def theorems_of(pid):
     return out
 
 
+def coqchk(pid):
+    """thorough tier: re-check the compiled property modules (and everything they depend on) with Coq's independent
+    checker -> (summary lines, broken reason or None)"""
+    mods = ["Slinky.Properties.%s" % m for m in property_files(pid)]
+    try:
+        r = sh(["coqchk", "-o", "-silent", "-Q", os.path.join(VERIF, "coq"), "Slinky"] + mods,
+               cwd=os.path.join(VERIF, "coq"), timeout=3000)
+    except Exception as e:
+        return [], None if "timeout" in str(e).lower() else "coqchk could not run: %s" % e
+    out = r.stdout
+    if r.returncode != 0:
+        return [], "coqchk rejects the compiled development: " + out[-800:]
+    summary = {}
+    for key in ("Axioms", "Constants/Inductives relying on type-in-type",
+                "Constants/Inductives relying on unsafe (co)fixpoints", "Inductives whose positivity is assumed"):
+        m = re.search(r"\* %s:\s*(.*?)(?=\n\s*\n|\n\* |\Z)" % re.escape(key), out, flags=re.S)
+        summary[key] = " ".join(m.group(1).split()) if m else "?"
+    bad = [k for k, v in summary.items() if v != "<none>"]
+    lines = ["%s: %s" % (k, v) for k, v in summary.items()]
+    if bad:
+        return lines, "coqchk reports " + "; ".join("%s: %s" % (k, summary[k]) for k in bad)
+    return lines, None
+
+
 def audit(pid):
     """-> (obligations, discharged, details, broken_reason)"""
     thms = theorems_of(pid)
@@ -277,6 +301,11 @@ def run_check(pid, tier, seed, replay=None, ncases=None):
     for t, d in details:
         if d.startswith("UNEXPECTED"):
             proof_broken.append("%s depends on %s" % (t, d))
+    coqchk_lines = []
+    if tier == "thorough":
+        coqchk_lines, chk_broken = coqchk(pid)
+        if chk_broken:
+            proof_broken.append(chk_broken)
     extra_ob, extra_ok, extra_notes = monitors.static_obligations(pid)
     obligations += extra_ob
     discharged += extra_ok
@@ -441,6 +470,7 @@ def run_check(pid, tier, seed, replay=None, ncases=None):
             "outcome_distribution": stats["outcomes"],
             "feature_distribution": stats["features"],
             "exhaustive": False,
+            "coqchk": coqchk_lines or "not run in this tier (thorough runs coqchk -o -silent on the property modules)",
         },
         "assumptions": monitors.ASSUMPTIONS.get(pid, []) + notes,
         "wall_s": round(wall, 2),
